@@ -76,7 +76,7 @@ func writeEvidence(pr *props.Property, tier string, seed uint64, a *agg, planned
 		"wall_s":      wall.Seconds(),
 		"violations":  len(reported),
 	}
-	dir := filepath.Join(verifRoot(), "evidence")
+	dir := filepath.Join(outRoot(), "evidence")
 	os.MkdirAll(dir, 0o755)
 	b, _ := json.MarshalIndent(ev, "", " ")
 	if err := os.WriteFile(filepath.Join(dir, pr.ID+".json"), b, 0o644); err != nil {
